@@ -93,6 +93,7 @@ type Sched struct {
 	timers    []*timer
 	aborting  bool
 	MaxSteps  int
+	Fatals    []string
 	Capped    bool
 	Horizon   time.Duration
 	EndTime   time.Duration
@@ -533,8 +534,20 @@ func (s *Sched) BlockedLib() []string {
 	return out
 }
 
+// Fatal models a runtime fatal error (e.g. "sync: unlock of unlocked mutex", "concurrent map
+// writes"): unlike a panic it cannot be recovered - the process is gone. It is recorded with the
+// panics of the execution and the calling thread never runs again.
+func Fatal(msg string) {
+	if S == nil || S.aborting {
+		panic("fatal error: " + msg)
+	}
+	S.Fatals = append(S.Fatals, fmt.Sprintf("%s: fatal error: %s (not recoverable: the whole process aborts)", S.curName(), msg))
+	S.logf("thread %s FATAL: %s", S.curName(), msg)
+	BlockObj("fatal", S, func() bool { return false })
+}
+
 func (s *Sched) Panics() []string {
-	var out []string
+	out := append([]string{}, s.Fatals...)
 	for _, t := range s.threads {
 		if t.Panic != nil {
 			out = append(out, fmt.Sprintf("%s: %v", t.Name, t.Panic))
